@@ -203,6 +203,21 @@ theorem serialize_parse_history (vs : List JValue) (h : ∀ v ∈ vs, v.valid = 
     simp only [List.map_cons]
     rw [serialize_parse_value v (h v (by simp)), ih (fun w hw => h w (by simp [hw]))]
 
+/-- Serializing is a function of its argument: however many times (and with whatever further inputs `ps`,
+e.g. serialization parameters) a value is serialized, the value that is serialized afterwards is the
+one we started with.  Trivial for the model — a Lean function cannot write to its argument — and exactly
+what the real code must imitate: `harness/c17.py` snapshots every input tree before and after every
+evaluation (kind `PURITY`) and round-trips a tree after serializing some of its nodes (kind `SERH`).
+The proof-side guard against new write sites in the evaluator is C05's structural table
+`no_tree_write_outside_allow_list`. -/
+theorem serialize_leaves_argument {P : Type} (v : JValue) (ps : List P) :
+    (ps.foldl (fun (st : JValue × List Str) _ => (st.1, serializeJson st.1 :: st.2)) (v, [])).1 = v := by
+  suffices h : ∀ (acc : List Str), (ps.foldl (fun (st : JValue × List Str) _ =>
+      (st.1, serializeJson st.1 :: st.2)) (v, acc)).1 = v from h []
+  induction ps with
+  | nil => intro acc; rfl
+  | cons p t ih => intro acc; exact ih _
+
 /-- the same for `xml-to-json(json-to-xml(·))` -/
 theorem json_xml_history (rnd : Dec → Dec) (vs : List JValue) (h : ∀ v ∈ vs, v.x2jDom = true ∧ v.numsFixed rnd) :
     ∀ v ∈ vs, ∃ t w, (jsonToXml v).bind (xmlToJson rnd) = .ok t ∧ parseJson t = some w ∧ SameValue v w :=
